@@ -607,6 +607,7 @@ class SchedulerTask(Task[P, R]):
                 args,
                 kwargs,
                 task_options=self._task_options_override,
+                export_options=self._export_options,
                 length=self.nout,
             ),
         )
